@@ -44,7 +44,7 @@ func genC05(g *Gen) {
 			for _, stall := range []int{0, 150} {
 				var ws []string
 				for i := 0; i < nw; i++ {
-					ws = append(ws, fmt.Sprintf("%dx%d", 1+r.Intn(6), sizes[r.Intn(len(sizes))]))
+					ws = append(ws, fmt.Sprintf("%c%dx%d", "FEX"[r.Intn(3)], 1+r.Intn(6), sizes[r.Intn(len(sizes))]))
 				}
 				g.emit("c05run", tr, strconv.Itoa(stall), listStr(ws))
 			}
@@ -53,7 +53,7 @@ func genC05(g *Gen) {
 	if g.tier == "thorough" {
 		var ws []string
 		for i := 0; i < 300; i++ {
-			ws = append(ws, fmt.Sprintf("%dx%d", 1+r.Intn(3), sizes[r.Intn(5)]))
+			ws = append(ws, fmt.Sprintf("%c%dx%d", "FEX"[r.Intn(3)], 1+r.Intn(3), sizes[r.Intn(5)]))
 		}
 		g.emit("c05run", "plain", "100", listStr(ws))
 	}
@@ -144,11 +144,14 @@ func runC05(t *Toks) string {
 	var buf []byte
 	for i, sp := range specs {
 		id := msg + int64(i)
-		if _, ok := wp.ask(fmt.Sprintf("script %d b1 F%s", id, sp), "script-ok", 3*time.Second); !ok {
+		if sp[0] >= '0' && sp[0] <= '9' {
+			sp = "F" + sp
+		}
+		if _, ok := wp.ask(fmt.Sprintf("script %d b1 %s", id, sp), "script-ok", 3*time.Second); !ok {
 			return "HARNESS-ERROR script"
 		}
 		var n, size int
-		fmt.Sscanf(sp, "%dx%d", &n, &size)
+		fmt.Sscanf(sp[1:], "%dx%d", &n, &size)
 		for k := 0; k < n; k++ {
 			expected[fmt.Sprintf("%d:%d", id, k)] = true
 		}
@@ -196,10 +199,13 @@ func runC05(t *Toks) string {
 			}
 			canon := canonParsed(node, 0)
 			f := strings.Fields(canon)
-			if len(f) < 6 || f[0] != "result" {
-				return "SPECFAIL frame " + strconv.Itoa(frames) + " is not a well-formed LDAPResult message: " + canon
+			if len(f) < 3 || (f[0] != "result" && f[0] != "entry") || (f[0] == "result" && len(f) < 6) {
+				return "SPECFAIL frame " + strconv.Itoa(frames) + " is not a well-formed LDAPMessage of the kinds written: " + canon
 			}
-			diag := string(unhx(f[5]))
+			diag := string(unhx(f[5%len(f)]))
+			if f[0] == "entry" {
+				diag = string(unhx(f[2]))
+			}
 			parts := strings.SplitN(diag, ":", 3)
 			if len(parts) < 3 || parts[0] != f[1] {
 				return "SPECFAIL frame carries a foreign payload: msgid " + f[1] + " diag " + diag[:min(len(diag), 20)]
